@@ -12,6 +12,9 @@ structure V2Thread where
   tid : Nat
   pid : Nat
   name : Bytes
+  /-- bytes left in the 20-byte command field BEHIND the name's terminator (a reused kernel slot: the field is a C
+      string, what follows the first NUL is not part of the name); the rest of the field is NUL. -/
+  junk : Bytes := []
   deriving Repr, DecidableEq
 
 structure V2File where
@@ -24,9 +27,14 @@ structure V2File where
 
 def zeros (n : Nat) : Bytes := List.replicate n 0
 
-/-- one 32-byte `kd_threadmap` entry: tid, pid, name NUL-padded to 20 bytes. -/
+/-- what follows the name in the 20-byte command field: the terminator, the junk, NUL padding. -/
+def V2Thread.fieldTail (t : V2Thread) : Bytes :=
+  0 :: (t.junk ++ zeros (19 - t.name.length - t.junk.length))
+
+/-- one 32-byte `kd_threadmap` entry: tid, pid, and the 20-byte command field = name, NUL, arbitrary bytes, NUL padding
+    (with `junk = []`: the name NUL-padded to 20 bytes). -/
 def encodeThread (t : V2Thread) : Bytes :=
-  toLE 8 t.tid ++ (toLE 4 t.pid ++ (t.name ++ zeros (20 - t.name.length)))
+  toLE 8 t.tid ++ (toLE 4 t.pid ++ (t.name ++ t.fieldTail))
 
 def v2Magic : Bytes := [0x00, 0x02, 0xaa, 0x55]
 
@@ -37,7 +45,7 @@ def encodeV2 (f : V2File) : Bytes :=
 /-- a thread-map entry the 20-byte name field can hold: NUL-free valid UTF-8 of at most 19 bytes
     (a 20-byte name leaves no room for the terminator and is rejected by the real `CString`). -/
 def V2Thread.WF (t : V2Thread) : Prop :=
-  t.tid < 2 ^ 64 ∧ t.pid < 2 ^ 32 ∧ (∀ b ∈ t.name, b ≠ 0) ∧ t.name.length ≤ 19 ∧ validUtf8 t.name = true
+  t.tid < 2 ^ 64 ∧ t.pid < 2 ^ 32 ∧ (∀ b ∈ t.name, b ≠ 0) ∧ t.name.length + t.junk.length ≤ 19 ∧ validUtf8 t.name = true
 
 def V2File.WF (f : V2File) : Prop :=
   f.threads.length < 2 ^ 32 ∧ (∀ t ∈ f.threads, t.WF) ∧ f.is64 < 2 ^ 32 ∧ f.tick < 2 ^ 64 ∧
